@@ -245,23 +245,29 @@ def crosses (h v : Seg) : Bool :=
 def endVert (h v : Seg) : Bool :=
   (h.p == v.b && hasAt v.vs v.b) || (h.p == v.f && hasAt v.vs v.f)
 
+/-- a dummy vertex at the finite line end `t` unless there is a vertex already; nothing at an infinite
+    end (`inf` = the sentinel) -/
+def ensureFin (inf : Rat) (vs : List LV) (t : Rat) : List LV := if t == inf then vs else ensure vs t
+
+/-- the vertices of `h` plus the `beginVertInf/finishVertInf` of vertical lines starting exactly at `h`'s
+    begin (`insertBreakpointsBegin`) -/
+def hBase (vls : List Seg) (h : Seg) : List LV :=
+  h.vs ++ (((vls.filter (crosses h)).filter fun v => v.p == h.b && endVert h v).map fun _ => (⟨h.b, .node⟩ : LV))
+
 /-- all vertices the horizontal line `h` ends up with (its `breakPoints`) -/
 def hVerts (lo hi : Rat) (vls : List Seg) (h : Seg) : List LV :=
-  let cr := vls.filter (crosses h)
-  let vs0 := h.vs ++ ((cr.filter fun v => v.p == h.b && endVert h v).map fun _ => (⟨h.b, .node⟩ : LV))
-  let vs1 := if h.b == lo then vs0 else ensure vs0 h.b
-  let vs2 := if h.f == hi then vs1 else ensure vs1 h.f
-  (cr.map (·.p)).foldl ensure vs2
+  ((vls.filter (crosses h)).map (·.p)).foldl ensure (ensureFin hi (ensureFin lo (hBase vls h) h.b) h.f)
+
+/-- what one horizontal line (with its final vertices `hv`) hands to the vertical line `v` -/
+def vFrom (v : Seg) (h : Seg) (hv : List LV) : List LV :=
+  if crosses h v then
+    ((hv.filter (·.t == v.p)).map fun q => (⟨h.p, q.k⟩ : LV)) ++
+      (if v.p == h.f && v.p != h.b && endVert h v then [⟨h.p, .node⟩] else [])
+  else []
 
 /-- the breakpoints the vertical line `v` receives from the horizontal lines, and its own end points -/
 def vVerts (lo hi : Rat) (hls : List (Seg × List LV)) (v : Seg) : List LV :=
-  let got := hls.flatMap fun (h, hv) =>
-    if crosses h v then
-      ((hv.filter (·.t == v.p)).map fun q => (⟨h.p, q.k⟩ : LV)) ++
-        (if v.p == h.f && v.p != h.b && endVert h v then [⟨h.p, .node⟩] else [])
-    else []
-  let g1 := if v.b == lo || hasAt got v.b then got else got ++ [⟨v.b, .node⟩]
-  if v.f == hi || hasAt g1 v.f then g1 else g1 ++ [⟨v.f, .node⟩]
+  ensureFin hi (ensureFin lo (hls.flatMap fun p => vFrom v p.1 p.2) v.b) v.f
 
 /-! ### `generateVisibilityEdgesFromBreakpointSet` -/
 
@@ -380,5 +386,21 @@ def Lines.edges (L : Lines) : List (GV × GV) :=
 
 /-- the model's orthogonal visibility graph -/
 def Scene.graph (s : Scene) : List (GV × GV) := s.lines.edges
+
+/-! ### executable edge check (used by the driver on libavoid's dumped edges) -/
+
+/-- the open segment between `(a, y)` and `(b, y)` meets the open rectangle `R` -/
+def hitsH (R : Rect) (y a b : Rat) : Bool :=
+  decide (R.y0 < y) && decide (y < R.y1) && decide (max (min a b) R.x0 < min (max a b) R.x1)
+
+/-- an edge between two points is axis-parallel and its open segment avoids the open rectangle -/
+def edgeAvoids (R : Rect) (x1 y1 x2 y2 : Rat) : Bool :=
+  if y1 == y2 then !hitsH R y1 x1 x2
+  else if x1 == x2 then !hitsH R.tr x1 y1 y2
+  else false
+
+/-- a connector end point strictly inside `R` -/
+def hasConnIn (conns : List Conn) (R : Rect) : Bool :=
+  conns.any fun c => decide (R.x0 < c.x) && decide (c.x < R.x1) && decide (R.y0 < c.y) && decide (c.y < R.y1)
 
 end AdaptaVerif.Model.OrthVis
